@@ -194,6 +194,13 @@ func resolveOutputDescriptor(outputDescriptor *OutputDescriptor,
 	vc map[string]interface{}) (*ResolvedDescriptor, error) {
 	var resolved ResolvedDescriptor
 
+	// the data display of an output descriptor is optional
+	if outputDescriptor.Display == nil {
+		withEmptyDisplay := *outputDescriptor
+		withEmptyDisplay.Display = &DataDisplayDescriptor{}
+		outputDescriptor = &withEmptyDisplay
+	}
+
 	staticDisplayMappings, err := resolveStaticDisplayMappingObjects(outputDescriptor, vc)
 	if err != nil {
 		return nil, err
@@ -245,6 +252,10 @@ func resolveDescriptorProperties(properties []*LabeledDisplayMappingObject,
 	for i := range properties {
 		var err error
 
+		if properties[i] == nil {
+			continue
+		}
+
 		value, err := resolveDisplayMappingObject(&properties[i].DisplayMappingObject, vc)
 		if err != nil {
 			return nil, fmt.Errorf("failed to resolve the display mapping object for the property with label '%s': %w", properties[i].Label, err) // nolint:lll
@@ -262,6 +273,11 @@ func resolveDescriptorProperties(properties []*LabeledDisplayMappingObject,
 
 func resolveDisplayMappingObject(displayMappingObject *DisplayMappingObject,
 	vc map[string]interface{}) (interface{}, error) {
+	// every member of a data display is optional: a manifest without subtitle (or title, description) has nothing to show
+	if displayMappingObject == nil {
+		return "", nil
+	}
+
 	if len(displayMappingObject.Paths) > 0 {
 		resolvedValue, err := resolveJSONPathsUsingVC(displayMappingObject.Paths, displayMappingObject.Fallback, vc)
 		return resolvedValue, err
